@@ -570,6 +570,7 @@ namespace hgraph::ts_data_plan_factory_detail
                     value_published_.set(result.slot);
                     added_.set(result.slot);
                 }
+                restore_modified_on_resurrection(result.slot, result.constructed, modified_time);
                 (void)key_set_tracking_.record_modified(modified_time);
                 return mutation_result(result.slot, result.constructed);
             }
@@ -597,6 +598,7 @@ namespace hgraph::ts_data_plan_factory_detail
                     value_published_.set(result.slot);
                     added_.set(result.slot);
                 }
+                restore_modified_on_resurrection(result.slot, result.constructed, modified_time);
                 (void)key_set_tracking_.record_modified(modified_time);
                 return mutation_result(result.slot, result.constructed);
             }
@@ -682,6 +684,20 @@ namespace hgraph::ts_data_plan_factory_detail
                 removed_.reset();
                 modified_.reset();
                 delta_time_ = MIN_DT;
+            }
+
+            // A key erased and re-created within one cycle resurrects its pending slot together with its
+            // child. remove_key cleared the modified mark, and a further write of that child is no longer
+            // the "first write for this time", so the child never notifies the dictionary again. If the
+            // resurrected, published child was modified in this cycle the key must still be reported.
+            void restore_modified_on_resurrection(std::size_t slot, bool constructed, DateTime modified_time)
+            {
+                if (constructed || !slot_value_published(slot)) { return; }
+                const auto &ops = element_type_.ops_ref();
+                if (ops.tracking_impl(ops.context, values_.value_memory(slot))->last_modified_time == modified_time)
+                {
+                    modified_.set(slot);
+                }
             }
 
             void add_slot_observer(SlotObserver *observer)
